@@ -47,7 +47,10 @@ pub mod request_response;
 mod connection;
 #[cfg(feature = "verif")]
 pub mod connection;
+#[cfg(not(feature = "verif"))]
 mod protocol_set;
+#[cfg(feature = "verif")]
+pub mod protocol_set;
 #[cfg(not(feature = "verif"))]
 mod transport_service;
 #[cfg(feature = "verif")]
